@@ -232,6 +232,9 @@ impl HalState {
         }
         if let Some(s) = self.find_share(paddr, len) {
             let off = (paddr - s.paddr) as usize;
+            if s.bounce.is_none() && crate::heapwatch::freed_while_posted(s.ptr, s.len) {
+                return Err(MemFault { paddr, len, why: "device access (in place) to a buffer that was freed while it was still posted" });
+            }
             match &s.bounce {
                 Some(b) => out.copy_from_slice(&b[off..off + len]),
                 // SAFETY: the caller of `add` guarantees the buffer stays valid while shared.
@@ -283,6 +286,9 @@ impl HalState {
                 });
             }
             let off = (paddr - s.paddr) as usize;
+            if s.bounce.is_none() && crate::heapwatch::freed_while_posted(s.ptr, s.len) {
+                return Err(MemFault { paddr, len, why: "device access (in place) to a buffer that was freed while it was still posted" });
+            }
             match &mut s.bounce {
                 Some(b) => b[off..off + len].copy_from_slice(data),
                 // SAFETY: as above.
@@ -787,6 +793,12 @@ pub struct World {
     /// Samples: a short human-readable operation log kept by scenarios.
     pub oplog: Vec<String>,
     pub oplog_cap: usize,
+    /// Self-check of the hook placement: (queue, snapshot of descriptor table + available ring).
+    /// Every byte that changes must be explained by the store hook that just fired.
+    pub store_audit: Option<(u16, Vec<u8>)>,
+    /// Quiet phase (fast-forward of long runs): scheduling points do not draw from the tape and do
+    /// not run the device; explicit device steps take the first enabled action.
+    pub quiet: bool,
     /// Set by the bare-queue scenario around `add`: (queue, available index already stored).
     pub add_guard: Option<(u16, bool)>,
     /// Number of store events so far.
@@ -902,6 +914,8 @@ impl World {
             harness_errors: Vec::new(),
             oplog: Vec::new(),
             oplog_cap: 64,
+            store_audit: None,
+            quiet: false,
             add_guard: None,
             store_events: 0,
             store_kinds: [0; 5],
@@ -1054,6 +1068,9 @@ impl World {
         if kind != PointKind::Spin {
             // the driver is doing something other than spinning
             self.idle_spins = 0;
+            if self.quiet {
+                return;
+            }
         }
         crate::heapwatch::poll(self);
         if self.cfg.scribble && matches!(kind, PointKind::Op | PointKind::Transport) {
